@@ -1,17 +1,32 @@
-//! F3 (C09): the buffered dynamic solvers accept updates on unknown arguments/attacks (Ok(())) and only fail later.
-use crustabri::dynamics::{DynamicCompleteSemanticsSolver, DynamicSolver};
+//! F3 (C09): the five buffered dynamic solvers accept updates on unknown arguments/attacks (the update call returns
+//! Ok(())) and only fail later. Prints one line per (solver, update) and exits 1 if any invalid update was accepted.
+use crustabri::dynamics::assumptions_on_attacks::{
+    DynamicCompleteSemanticsSolverAttacks, DynamicStableSemanticsSolverAttacks,
+};
+use crustabri::dynamics::{
+    DynamicCompleteSemanticsSolver, DynamicPreferredSemanticsSolver, DynamicSolver,
+    DynamicStableSemanticsSolver,
+};
+
+fn probe(name: &str, s: &mut dyn DynamicSolver<usize>) -> usize {
+    s.new_argument(0);
+    let r1 = s.remove_argument(&1).is_ok();
+    let r2 = s.new_attack(&0, &7).is_ok();
+    let r3 = s.remove_attack(&0, &0).is_ok();
+    println!("{name}: remove_argument(unknown 1) accepted={r1}; new_attack(0 -> unknown 7) accepted={r2}; remove_attack(unknown 0 -> 0) accepted={r3}");
+    r1 as usize + r2 as usize + r3 as usize
+}
 
 fn main() {
-    let mut s = DynamicCompleteSemanticsSolver::<usize>::new();
-    s.new_argument(0);
-    let r1 = s.remove_argument(&1);
-    let r2 = s.new_attack(&0, &7);
-    let r3 = s.remove_attack(&0, &0);
-    println!("remove_argument(unknown) -> {:?}; new_attack(to unknown) -> {:?}; remove_attack(unknown) -> {:?}",
-        r1.is_ok(), r2.is_ok(), r3.is_ok());
-    if r1.is_ok() || r2.is_ok() || r3.is_ok() {
-        println!("DEFECT F3 reproduced: an invalid update was reported as Ok(()) by the update call itself");
+    let mut bad = 0;
+    bad += probe("DynamicCompleteSemanticsSolver", &mut DynamicCompleteSemanticsSolver::<usize>::new());
+    bad += probe("DynamicStableSemanticsSolver", &mut DynamicStableSemanticsSolver::<usize>::new());
+    bad += probe("DynamicPreferredSemanticsSolver", &mut DynamicPreferredSemanticsSolver::<usize>::new());
+    bad += probe("DynamicCompleteSemanticsSolverAttacks", &mut DynamicCompleteSemanticsSolverAttacks::<usize>::new());
+    bad += probe("DynamicStableSemanticsSolverAttacks", &mut DynamicStableSemanticsSolverAttacks::<usize>::new());
+    if bad > 0 {
+        println!("DEFECT F3 reproduced: {bad} invalid updates were reported as Ok(()) by the update call itself");
         std::process::exit(1);
     }
-    println!("OK: invalid updates are rejected by the update call");
+    println!("OK: every invalid update is rejected by the update call");
 }
